@@ -20,6 +20,10 @@ Inductive access : Type :=
 Definition access_ok (a : access) : bool :=
   match a with Other _ => false | _ => true end.
 
+(* how otsu.py picks the minimising split: positions where the score EQUALS its minimum (scale invariant), or not *)
+Inductive selection : Type := ExactMin | OtherSel (src : string).
+Definition selection_ok (s : selection) : bool := match s with ExactMin => true | OtherSel _ => false end.
+
 (* how a random stream is used (determinism of repeated calls) *)
 Inductive rand_use : Type :=
 | SeededGlobal            (* np.random.<draw> directly after np.random.seed(<literal>) *)
